@@ -381,8 +381,39 @@ def rule_r6(chk):
         chk.ob("C05-R6", f"fords.steadiers.solve_steady_linear_flat[{name}]", ok if v is not None else None, "flat steady state has zero change", fm.loc(g))
 
 
+def rule_r7(chk):
+    """truth table of the block-skip guard"""
+    from .. import fin
+    chk.rule("C05-R7", "finite evaluation of the block-skip guard in _steady_nonlinear over all emptiness combinations: a block is skipped "
+             "(and reported solved) only when it has no level unknowns AND no change unknowns, or no equations", floor=8)
+    m = chk.repo.mod(SMOD)
+    f = m.func("_steady_nonlinear")
+    hq, he = assign_value(f, "has_no_qids"), assign_value(f, "has_no_equations")
+    skip = None
+    for n in ast.walk(f):
+        if isinstance(n, ast.If) and any(isinstance(x, ast.Continue) for x in n.body) and "has_no" in squash(n.test):
+            skip = n.test
+    if hq is None or he is None or skip is None:
+        chk.undecided("C05-R7", "simultaneous._steady._steady_nonlinear[skip guard]", "guard shape not recognised", m.loc(f))
+        return
+    for L in ((), (3,)):
+        for C in ((), (4,)):
+            for E in ((), ("eq",)):
+                try:
+                    env = {"block_level_qids": L, "block_change_qids": C, "block_equations": E}
+                    env["has_no_qids"] = bool(fin.ev(hq, env))
+                    env["has_no_equations"] = bool(fin.ev(he, env))
+                    got = bool(fin.ev(skip, env))
+                    want = (not L and not C) or not E
+                    chk.ob("C05-R7", f"simultaneous._steady._steady_nonlinear[skip levels={bool(L)},changes={bool(C)},equations={bool(E)}]", got == want,
+                           f"skip={got}; a block with level unknowns={bool(L)}, change unknowns={bool(C)}, equations={bool(E)} must {'be skipped' if want else 'be solved'}", m.loc(skip))
+                except fin.NotFinite as e:
+                    chk.undecided("C05-R7", f"simultaneous._steady._steady_nonlinear[skip {bool(L)},{bool(C)},{bool(E)}]", str(e), m.loc(f))
+
+
 def run(chk):
     rule_r1(chk)
+    rule_r7(chk)
     rule_r2(chk)
     rule_r3(chk)
     c02.rule_r3(chk, rid="C05-R4")
